@@ -545,7 +545,7 @@ func ruleScanClass(c *Ctx) []Ob {
 	if m := c.Func(pkgReflect, "(*tDecoder).Malloc"); m != nil {
 		abi := m.Params[len(m.Params)-1]
 		var gcs []*ssa.Call
-		var sp *ssa.Call
+		var sp ssa.Instruction
 		for _, b := range m.Blocks {
 			for _, ins := range b.Instrs {
 				if call, ok := ins.(*ssa.Call); ok && call.Call.StaticCallee() != nil {
@@ -554,6 +554,14 @@ func ruleScanClass(c *Ctx) []Ob {
 						gcs = append(gcs, call)
 					case "span.Malloc":
 						sp = call
+					}
+				}
+				// the bump allocation written out here: the advance of the span position stands for the call
+				if st, ok := ins.(*ssa.Store); ok && sp == nil {
+					if _, typ, f, ok := fieldOf(st.Addr); ok && typ == "span" && f == "p" {
+						if _, isC := st.Val.(*ssa.Const); !isC {
+							sp = st
+						}
 					}
 				}
 			}
@@ -818,10 +826,33 @@ func rootedAt(v ssa.Value, root ssa.Value) bool {
 
 func ruleBump(c *Ctx) []Ob {
 	s := newSink(c, "E9.bump")
-	m := c.Func(pkgReflect, "(*span).Malloc")
 	ini := c.Func(pkgReflect, "(*span).init")
-	if m == nil || ini == nil {
-		s.bad("roles", "-", "(*span).Malloc / init not found")
+	// the allocator functions, by construct: those that advance the span position (store a non-constant into span.p). Today
+	// that is (*span).Malloc; written out in the decoder's Malloc it is that function
+	type bumpFn struct {
+		fn *ssa.Function
+		sp string
+	}
+	var bumps []bumpFn
+	isBump := map[*ssa.Function]bool{}
+	for _, fn := range c.ModuleFuncs(pkgReflect) {
+		for _, b := range fn.Blocks {
+			for _, ins := range b.Instrs {
+				if st, ok := ins.(*ssa.Store); ok {
+					if _, typ, f, ok := fieldOf(st.Addr); ok && typ == "span" && f == "p" {
+						if _, isC := st.Val.(*ssa.Const); !isC && !isBump[fn] && !isRefillHelper(fn) {
+							if fa, ok := st.Addr.(*ssa.FieldAddr); ok {
+								isBump[fn] = true
+								bumps = append(bumps, bumpFn{fn, path(fa.X)})
+							}
+						}
+					}
+				}
+			}
+		}
+	}
+	if len(bumps) == 0 {
+		s.bad("roles", "-", "no function advances the span position: the bump allocator was not found")
 		return s.obs
 	}
 	// writers of span state
@@ -833,14 +864,30 @@ func ruleBump(c *Ctx) []Ob {
 					continue
 				}
 				if _, typ, f, ok := fieldOf(st.Addr); ok && typ == "span" {
-					s.check(fn == m || fn == ini || isRefillHelper(fn), shortFn(fn)+":span."+f, c.InstrPos(st), "span state written by the allocator itself", "span."+f+" is written outside (*span).init/Malloc (and not by a helper that installs a fresh block): resetting or rewinding the position re-issues memory that earlier decoded objects still own")
+					s.check(isBump[fn] || fn == ini || isRefillHelper(fn), shortFn(fn)+":span."+f, c.InstrPos(st), "span state written by the allocator itself", "span."+f+" is written outside (*span).init/Malloc (and not by a helper that installs a fresh block): resetting or rewinding the position re-issues memory that earlier decoded objects still own")
 				}
 			}
 		}
 	}
-	// shape of Malloc
-	sp := m.Params[0].Name()
-	n, align := m.Params[1], m.Params[2]
+	for _, bf := range bumps {
+		bumpShape(c, s, bf.fn, bf.sp)
+	}
+	return s.obs
+}
+
+// bumpShape: capacity test, refill and round-up / advance of one allocator function m working on the span at path sp.
+func bumpShape(c *Ctx, s *obSink, m *ssa.Function, sp string) {
+	var ints []*ssa.Parameter
+	for _, p := range m.Params {
+		if isInt(p.Type()) {
+			ints = append(ints, p)
+		}
+	}
+	if len(ints) < 2 {
+		s.undec("span.Malloc:capacity-test", c.Pos(m.Pos()), "the allocator "+m.Name()+" does not take a size and an alignment")
+		return
+	}
+	n, align := ints[0], ints[1]
 	a := newLinAn(c, m, nil)
 	var capTest *ssa.If
 	for _, b := range m.Blocks {
@@ -855,7 +902,7 @@ func ruleBump(c *Ctx) []Ob {
 	}
 	if capTest == nil {
 		s.undec("span.Malloc:capacity-test", c.Pos(m.Pos()), "no capacity test of the form s.p + n + (align-1) > s.n: allocator shape not recognised")
-		return s.obs
+		return
 	}
 	s.ok("span.Malloc:capacity-test", c.InstrPos(capTest), "p + n + (align-1) > n-of-block triggers a refill")
 	// refill: p = 0, b = mallocgc(sz), n = sz with sz >= n+mask
@@ -993,7 +1040,6 @@ func ruleBump(c *Ctx) []Ob {
 	} else {
 		s.undec("span.Malloc:align-advance", c.Pos(m.Pos()), "alignment round-up / advance not in the recognised shape ("+why+"): the allocator must be re-confirmed by hand")
 	}
-	return s.obs
 }
 
 // isRefillHelper: a span method (s, sz) that installs a fresh block: p = 0, b = mallocgc(sz, 0, false), n = sz, and nothing else.
